@@ -61,6 +61,12 @@ def check_inprocess(sc, junk1, junk2):
         return vs, r1, None
     d1, d2 = tree_digest(r1.tree), tree_digest(r2.tree)
     engines = "/".join(lv["engine"] for lv in sc["levels"])
+    if sc["objective"]["family"] == "nanhole":
+        # which of several NaN individuals a report shows is decided by coin flips at the time of the report
+        # (FunctionProblem.worse_than): only the trees are compared for NaN-valued objectives
+        if d1 != d2:
+            vs.append(Violation(PROP, "C14/rerun/trees-differ", f"engines {engines} (NaN-valued objective), seed {sc['options']['random_seed']}: two runs of the same configuration differ: " + tree_diff(r1.tree, r2.tree)))
+        return vs, r1, (d1, "")
     if d1 != d2:
         vs.append(Violation(PROP, "C14/rerun/trees-differ", f"engines {engines}, seed {sc['options']['random_seed']}: two runs of the same configuration differ after scrambling the global generators: " + tree_diff(r1.tree, r2.tree)))
     elif summary_fingerprint(r1.tree) != summary_fingerprint(r2.tree):
@@ -106,7 +112,9 @@ def run_shard(tier, seed, shard, nshards, tally: Tally, scale=1.0):
             batch.append((sc, fp))
         return vs
 
-    strat = st.tuples(scenarios({}), st.integers(0, 10**6), st.integers(0, 10**6))
+    from ..scenario import Objective
+
+    strat = st.tuples(scenarios({"families": Objective.FAMILIES + ["nanhole"]}), st.integers(0, 10**6), st.integers(0, 10**6))
     fs = hyp_drive(PROP, strat, body, tally=tally, max_examples=n, seed=shard_seed(seed, shard), kind="rerun")
     for f in fs:
         if isinstance(f.case, list):
@@ -118,6 +126,8 @@ def run_shard(tier, seed, shard, nshards, tally: Tally, scale=1.0):
             res = run_subprocess(scs, hs, junk)
             tally.count("cross_process_runs", len(res))
             for (sc, fp), got in zip(batch, res):
+                if fp[1] == "":
+                    got = [got[0], ""]
                 if got[0] == "CRASH" or tuple(got) != tuple(fp):
                     sig = "C14/cross-process/differs"
                     engines = "/".join(lv["engine"] for lv in sc["levels"])
@@ -160,6 +170,8 @@ def replay(case, kind=""):
     if fp is not None:
         for hs in (1, 12345):
             got = run_subprocess([sc], hs, 5)[0]
+            if fp[1] == "":
+                got = [got[0], ""]
             if tuple(got) != tuple(fp):
                 vs.append(Violation(PROP, "C14/cross-process/differs", f"PYTHONHASHSEED={hs}: {got} vs in-process {list(fp)}"))
     return vs
